@@ -179,8 +179,8 @@ func (m *ibtpModel) afterBlock(h uint64, txs []*pb.BxhTransaction, metas []*txMe
 		}
 		pm := m.pair(ib.From, ib.To)
 		id := fmt.Sprintf("%s-%s-%d", ib.From, ib.To, ib.Index)
-		if ib.Group != nil {
-			continue // one-to-many children are handled by the group model
+		if ib.Group != nil || pm.batch {
+			continue // one-to-many children (and pairs carrying them) are handled by the group model
 		}
 		if !accepted {
 			s.res.Count("ibtp_rejected")
